@@ -41,7 +41,7 @@ func (p *BaseFailurePolicy[R]) HandleErrorTypes(errs ...any) {
 
 func (p *BaseFailurePolicy[R]) HandleResult(result R) {
 	p.failureConditions = append(p.failureConditions, func(r R, err error) bool {
-		return reflect.DeepEqual(r, result)
+		return err == nil && reflect.DeepEqual(r, result)
 	})
 }
 
